@@ -66,7 +66,14 @@ class C15(RailsProp):
             if adv == "sep":
                 a["turns"][0]["prefix_messages"] = [{"role": "user", "content": "%s:%s" % (b0, rb0)}, {"role": "assistant", "content": ra}]
             else:
-                a["turns"][0]["prefix_messages"] = [{"role": "user", "content": b0}, {"role": "user", "content": rb0}, {"role": "assistant", "content": ra}]
+                # role mimicry without sharing a true prefix: conversation 1 starts with a context message, conversation 0
+                # with a *user* message whose text is that context's JSON; [context c, user B0, assistant R] and
+                # [user json(c), user B0, assistant R] join to the same key
+                import json as _json
+
+                ctxd = {"k": "v1"}
+                b["turns"][0]["pre_context"] = ctxd
+                a["turns"][0]["prefix_messages"] = [{"role": "user", "content": _json.dumps(ctxd)}, {"role": "user", "content": b0}, {"role": "assistant", "content": rb0}]
             a["start"] = 30.0  # concurrent family: conversation 1 has answered its first turn by then
         if sc["family"] == "seq":
             slots = [c for c, conv in enumerate(sc["convs"]) for _ in conv["turns"]]
@@ -116,6 +123,8 @@ class C15(RailsProp):
                 if sc["colang"] == "1.0":
                     if t == 0 and turn.get("prefix_messages"):
                         msgs.extend(dict(m) for m in turn["prefix_messages"])
+                    if t == 0 and turn.get("pre_context"):
+                        msgs.append({"role": "context", "content": dict(turn["pre_context"])})
                     msgs.append({"role": "user", "content": turn["text"]})
                     st, res = await world.generate("c%d" % c, messages=msgs, options=opts)
                 else:
@@ -357,6 +366,8 @@ def _key_collisions(sc, results):
         for t, turn in enumerate(conv["turns"]):
             if t == 0 and turn.get("prefix_messages"):
                 msgs.extend(dict(m) for m in turn["prefix_messages"])
+            if t == 0 and turn.get("pre_context"):
+                msgs.append({"role": "context", "content": dict(turn["pre_context"])})
             msgs.append({"role": "user", "content": turn["text"]})
             if t < len(reps) and reps[t][0] == "assistant":
                 msgs.append({"role": "assistant", "content": reps[t][1]})
